@@ -5,7 +5,7 @@ From C01 Require Import Model Sim Ext Laws.
 (* the scopes captured by the closures inside a value *)
 Fixpoint scopes_of (v : val) : list scope :=
   match v with
-  | VClo _ _ sc => [sc]
+  | VClo _ _ _ sc => [sc]
   | VList vs | VValues vs => (fix go (l : list val) : list scope := match l with [] => [] | x :: l' => scopes_of x ++ go l' end) vs
   | VDot vs tl => (fix go (l : list val) : list scope := match l with [] => [] | x :: l' => scopes_of x ++ go l' end) vs ++ scopes_of tl
   | _ => []
@@ -32,7 +32,7 @@ Lemma wf_val_values : forall st vs, wf_val st (VValues vs) <-> wf_vals st vs.
 Proof. intros; unfold wf_val; simpl; rewrite scopes_go; apply wf_flat. Qed.
 Lemma wf_val_dot : forall st vs tl, wf_val st (VDot vs tl) <-> wf_vals st vs /\ wf_val st tl.
 Proof. intros; unfold wf_val; simpl; rewrite scopes_go, Forall_app, wf_flat; reflexivity. Qed.
-Lemma wf_val_clo : forall st ps body sc, wf_val st (VClo ps body sc) <-> wf_scope st sc.
+Lemma wf_val_clo : forall st ps os body sc, wf_val st (VClo ps os body sc) <-> wf_scope st sc.
 Proof.
   intros; unfold wf_val; simpl; split; intro H; [inversion H; assumption|constructor; [assumption|constructor]].
 Qed.
@@ -252,7 +252,7 @@ Proof.
 Qed.
 
 Definition wf_callable (st : state) (c : callable) : Prop :=
-  match c with CClo _ _ sc => wf_scope st sc | CPrim _ => True end.
+  match c with CClo _ _ _ sc => wf_scope st sc | CPrim _ => True end.
 Lemma wf_find_fun : forall st f c, wf_state st -> find_fun (funs st) f = Some c -> wf_val st c.
 Proof.
   intros st f c [_ H] E. induction (funs st) as [|[g d] l IH]; simpl in E; [discriminate|].
@@ -408,15 +408,49 @@ Proof.
   apply IH; [assumption|eapply wf_scope_ext; [exact E2|eapply wf_scope_ext; [exact E|exact S]]|].
   eapply wf_val_ext; [exact E2|]. apply wf_primary; assumption.
 Qed.
+(* the scope (f, current length of frame f) :: sc *)
+Lemma wf_scope_cur : forall st f sc, f < List.length (frames st) -> wf_scope st sc ->
+  wf_scope st ((f, List.length (get_frame st f)) :: sc).
+Proof. intros; constructor; [simpl; split; [assumption|lia]|assumption]. Qed.
+Lemma ext_frames_length : forall st st', ext st st' -> List.length (frames st) <= List.length (frames st').
+Proof. intros st st' (L & _); exact L. Qed.
+
+Lemma ev_defaults_wf : forall os st sc f, wf_state st -> wf_scope st sc -> f < List.length (frames st) ->
+  good_res st ptrue (ev_defaults m ev st sc f os).
+Proof.
+  induction os as [|[x e] os IH]; intros st sc f W S F; simpl; [apply good_ret; [assumption|exact I]|].
+  destruct (fr_index (get_frame st f) x); [apply IH; assumption|].
+  eapply good_bind; [apply Hev; [assumption|apply wf_scope_cur; assumption]|]. intros v s E Ws Vs.
+  apply good_bindo; [assumption|]. intros a Ha.
+  eapply good_from; [apply ext_bind_in, ext_refl|].
+  apply IH.
+  - apply wf_bind_in; [assumption|eapply wf_store_red; eauto].
+  - eapply wf_scope_ext; [apply ext_bind_in, ext_refl|]. eapply wf_scope_ext; eauto.
+  - pose proof (ext_frames_length _ _ E). pose proof (ext_frames_length _ _ (ext_bind_in s s f x a (ext_refl s))). lia.
+Qed.
 Lemma apply_fn_wf : forall st c args, wf_state st -> wf_callable st c -> wf_vals st args ->
   good_res st wf_val (apply_fn m ev st c args).
 Proof.
-  intros st [ps body csc|p] args W C A; simpl.
-  - destruct (List.length ps <? List.length args); [apply good_err; assumption|].
-    apply good_bindo; [assumption|]. intros u Hu.
-    apply (good_alloc_then val st (mk_frame ps args) csc wf_val (fun st2 sc2 => ev_seq ev st2 sc2 body VNil)); auto.
-    + apply wf_mk_frame; assumption.
-    + intros; apply ev_seq_wf; auto. apply wf_nil.
+  intros st [ps os body csc|p] args W C A; unfold apply_fn.
+  - destruct (List.length ps + List.length os <? List.length args); [apply good_err; assumption|].
+    destruct (List.length args <? List.length ps); [apply good_err; assumption|].
+    simpl in C.
+    set (fr := mk_frame (ps ++ map fst os) args).
+    assert (Wfr : wf_frame st fr) by (apply wf_mk_frame; assumption).
+    unfold alloc.
+    change (mkSt (frames st ++ [fr]) (funs st) (trace st)) with (snd (alloc st fr)).
+    assert (E1 : ext st (snd (alloc st fr))) by (apply ext_alloc, ext_refl).
+    assert (W1 : wf_state (snd (alloc st fr))) by (apply wf_alloc; assumption).
+    assert (S1 : wf_scope (snd (alloc st fr)) ((List.length (frames st), List.length fr) :: csc)) by (apply wf_scope_alloc; assumption).
+    assert (F1 : List.length (frames st) < List.length (frames (snd (alloc st fr)))) by (simpl; rewrite app_length; simpl; lia).
+    eapply good_from; [exact E1|].
+    destruct (drop os (List.length args - List.length ps)) as [|d ds].
+    + apply ev_seq_wf; [assumption|assumption|apply wf_nil].
+    + eapply good_bind; [apply ev_defaults_wf; [exact W1| |exact F1]|].
+      * eapply wf_scope_ext; [exact E1|exact C].
+      * intros u s2 E2 W2 _. apply ev_seq_wf; [assumption| |apply wf_nil].
+        apply wf_scope_cur; [pose proof (ext_frames_length _ _ E2); lia|].
+        eapply wf_scope_ext; [exact E2|]. eapply wf_scope_ext; [exact E1|exact C].
   - apply good_out; [assumption|]. intros a Ha. eapply wf_prim; eauto.
 Qed.
 Lemma ev_map_wf : forall rows st c, wf_state st -> wf_callable st c -> Forall (wf_vals st) rows ->
@@ -442,13 +476,6 @@ Proof.
 Qed.
 Lemma ev_opt_wf : forall st sc r, wf_state st -> wf_scope st sc -> good_res st wf_val (ev_opt ev st sc r).
 Proof. intros st sc [e|] W S; simpl; [apply Hev; assumption|apply good_ret; [assumption|apply wf_nil]]. Qed.
-
-(* the scope (f, current length of frame f) :: sc *)
-Lemma wf_scope_cur : forall st f sc, f < List.length (frames st) -> wf_scope st sc ->
-  wf_scope st ((f, List.length (get_frame st f)) :: sc).
-Proof. intros; constructor; [simpl; split; [assumption|lia]|assumption]. Qed.
-Lemma ext_frames_length : forall st st', ext st st' -> List.length (frames st) <= List.length (frames st').
-Proof. intros st st' (L & _); exact L. Qed.
 
 Definition wf_scope_res (st : state) (sc : scope) : Prop := wf_scope st sc.
 Lemma ev_inits_seq_wf : forall bs st sc, wf_state st -> wf_scope st sc ->
@@ -547,10 +574,13 @@ Proof.
   - (* ELambda *) apply good_ret; [assumption|apply wf_val_clo; assumption].
   - (* EDefun *) apply good_step; [apply ext_add_fun, ext_refl| |constructor].
     apply wf_add_fun; [assumption|apply wf_val_clo; assumption].
+  - (* ELambdaO *) apply good_ret; [assumption|apply wf_val_clo; assumption].
+  - (* EDefunO *) apply good_step; [apply ext_add_fun, ext_refl| |constructor].
+    apply wf_add_fun; [assumption|apply wf_val_clo; assumption].
   - (* ECall *) destruct (find_fun (funs st) f) as [c|] eqn:F; [|apply good_err; assumption].
     pose proof (wf_find_fun _ _ _ W F) as Wc.
     destruct c; try (apply good_err; assumption).
-    gb ltac:(apply ev_args_wf). intros vs s E Ws Vs. apply (apply_fn_wf s (CClo ps body sc0) vs); [assumption| |assumption].
+    gb ltac:(apply ev_args_wf). intros vs s E Ws Vs. apply (apply_fn_wf s (CClo ps os body sc0) vs); [assumption| |assumption].
     simpl. apply wf_val_clo in Wc. ws.
   - (* EPrim *) gb ltac:(apply ev_args_wf). intros vs s E Ws Vs. apply good_out; [assumption|]. intros a Ha. eapply wf_prim; eauto.
   - (* EFuncall *) change (evalF m ev st sc (EFuncall e es)) with (bind (ev_args m ev st sc (e :: es)) (fun vs st1 =>
